@@ -1426,6 +1426,28 @@ func c06probes(c *core.Ctx) {
 			return ""
 		}, "quoted-keyword-argument"})
 	}
+	// statements whose body may be left out or be empty (RFC 7950 ABNF: container, case, choice, grouping, rpc, action,
+	// notification all end in ";" or in a block that may hold nothing); the forms the grammar takes today must stay, the
+	// others are the known finding empty-body-statements
+	for _, body := range []string{"container c;", "grouping g;", "rpc r;", "notification n;", "choice e;", "choice e { }", "choice ch { case a; }", "choice ch { case a { } }",
+		"choice ch { case a { leaf x { type string; } } case b { } }", "container c { action a; }"} {
+		body := body
+		probes = append(probes, probe{"statement without a body: " + body, hdr + body + "\n}", func(m *meta.Module, err error) string {
+			if err != nil {
+				return "legal YANG (the body of the statement may be left out or be empty, RFC 7950 §14) does not load: " + err.Error()
+			}
+			return ""
+		}, "empty-body-statements"})
+	}
+	for _, body := range []string{"container c { }", "grouping g { }", "rpc r { }", "notification n { }", "rpc r { input { } }", "identity i { }", "feature f { }", "choice ch { case a { description \"d\"; } }"} {
+		body := body
+		probes = append(probes, probe{"statement with an empty body: " + body, hdr + body + "\n}", func(m *meta.Module, err error) string {
+			if err != nil {
+				return "legal YANG does not load: " + err.Error()
+			}
+			return ""
+		}, ""})
+	}
 	for _, p := range probes {
 		var m *meta.Module
 		var lerr error
